@@ -2,7 +2,7 @@
    Characters are Unicode code points ([Z]); strings are [list Z].  No proofs here. *)
 From MJ Require Import Common.Base.
 
-Definition str := list Z.
+Notation str := (list Z) (only parsing).
 
 Definition c_tab := 9.
 Definition c_lf := 10.
